@@ -74,23 +74,37 @@ def run(ctx):
     defs = [n for n in ast.walk(oc) if isinstance(n, (ast.Assign, ast.AnnAssign)) and src(n.targets[0] if isinstance(n, ast.Assign) else n.target) == idxvar]
     ok = all((isinstance(d.value, ast.UnaryOp) or isinstance(d.value, ast.Constant) or isinstance(d.value, ast.Name)) for d in defs) and len(defs) == 2
     r2.check(ok, f"{cli.rel}:RedunClient.oneshot_command:index-defs", f"`{idxvar}` has definitions other than the initialiser and the array index from the environment", cli.rel, oc.lineno)
-    specs = {}
+    # array specs: locals loaded from a JSON spec file (one path per array element) and the pickled argument lists.  Identified by how they are
+    # defined, not by their names.
+    spec_vars: dict[str, str] = {}
     for n in ast.walk(oc):
-        if isinstance(n, ast.Subscript) and isinstance(n.ctx, ast.Load) and isinstance(n.value, ast.Name) and n.value.id in ("efiles", "ofiles", "task_args", "task_kwargs"):
-            specs.setdefault(n.value.id, []).append(n)
-    for name in ("efiles", "ofiles", "task_args", "task_kwargs"):
-        subs = specs.get(name, [])
-        ok = len(subs) == 1 and src(subs[0].slice) == idxvar
-        r2.check(ok, f"{cli.rel}:RedunClient.oneshot_command:{name}[index]", f"`{name}` is indexed by {[src(s.slice) for s in subs]} (expected once by `{idxvar}`)", cli.rel, subs[0].lineno if subs else oc.lineno)
-        if subs:
-            from ..cfg import facts_at as _fa
+        if isinstance(n, ast.Assign) and len(n.targets) == 1:
+            t0 = n.targets[0]
+            if isinstance(t0, ast.Name) and isinstance(n.value, ast.Call) and call_name(n.value) == "json.load":
+                spec_vars[t0.id] = "json spec"
+            elif isinstance(t0, ast.Tuple) and isinstance(n.value, ast.Call) and call_name(n.value) in ("pickle.load", "pickle_load"):
+                for e in t0.elts:
+                    if isinstance(e, ast.Name):
+                        spec_vars[e.id] = "pickled arguments"
+    if sum(1 for v in spec_vars.values() if v == "pickled arguments") < 2 or not any(v == "json spec" for v in spec_vars.values()):
+        raise AnalysisError(f"oneshot_command: array specs not recognised (found {spec_vars})", "RedunClient.oneshot_command")
+    from ..cfg import facts_at as _fa
 
-            ocfg = CFG(oc)
-            stmt = subs[0]
+    ocfg = CFG(oc)
+    nsub = 0
+    for n in ast.walk(oc):
+        if isinstance(n, ast.Subscript) and isinstance(n.ctx, ast.Load) and isinstance(n.value, ast.Name) and n.value.id in spec_vars:
+            nsub += 1
+            name = n.value.id
+            stmt = n
             while not isinstance(stmt, ast.stmt):
                 stmt = cli.parent.get(stmt)
+            key = f"{name}@{'error' if 'error' in src(stmt) else 'output' if 'output' in src(stmt) else 'input'}"
+            r2.check(src(n.slice) == idxvar, f"{cli.rel}:RedunClient.oneshot_command:{key}[index]", f"`{src(n)}`: the {spec_vars[name]} `{name}` is not indexed by `{idxvar}`", cli.rel, n.lineno)
             guarded = ("args.array_job", True) in _fa(ocfg, ocfg.node_of(stmt))
-            r2.check(guarded, f"{cli.rel}:RedunClient.oneshot_command:{name}:array-mode", f"`{name}` is indexed outside `if args.array_job`", cli.rel, subs[0].lineno)
+            r2.check(guarded, f"{cli.rel}:RedunClient.oneshot_command:{key}:array-mode", f"`{src(n)}` is evaluated outside `if args.array_job`", cli.rel, n.lineno)
+    if nsub < 4:
+        r2.violation(f"{cli.rel}:RedunClient.oneshot_command:specs-indexed", f"only {nsub} of the array specs (error paths, output paths, args, kwargs) are indexed by the array index", cli.rel, oc.lineno)
     ok = any(isinstance(n, ast.If) and src(n.test) == "index is None" and any(isinstance(b, ast.Raise) for b in n.body) for n in ast.walk(oc))
     r2.check(ok, f"{cli.rel}:RedunClient.oneshot_command:missing-index", "a missing array index is not rejected", cli.rel, oc.lineno)
 
